@@ -177,9 +177,12 @@ def alphabet0(root, f):
         ('eval', ('return {1, 2}',)),                                # result cannot be serialised
         ('eval', ('return 2 ** 70',)),                               # result cannot be serialised
         ('eval', ('return object()',)),
+        ('eval', ('return ["ok", "\\udc80"]',)),                     # supported type, still not serialisable (lone surrogate)
+        ('eval', ('a = []\na.append(a)\nreturn a',)),                # supported type, serialisation recurses for ever
         ('nosuch', (1,)),                                            # unknown method
         ('eval', ('raise SystemExit(3)',)),                          # a request that tries to end the server
         ('eval', ('import sys\nsys.exit("bye")',)),
+        ('eval', ('raise KeyboardInterrupt("stop")',)),
     ]
 
 
@@ -227,7 +230,7 @@ class Reference(object):
                 except Exception:
                     return ('exc', 'Serialize error')
             return ('exc', "'Server' object has no attribute '%s'" % name)
-        except (Exception, SystemExit) as e:
+        except (Exception, SystemExit, KeyboardInterrupt) as e:
             return ('exc', str(e))
 
 
